@@ -74,14 +74,13 @@ RangePremise(r) ==
         /\ ~(r.a.tz /\ r.a.off < 0 /\ r.b.off >= 0)
 Ranges == {r \in Pairs(RDates) \cup Pairs(RTimes) \cup Pairs(RDtNaive) \cup Pairs(RDtTz) : RangePremise(r)}
 
-VARIABLES c, done
-vars == <<c, done>>
-Init == /\ done = FALSE
-        /\ CASE Kind = "date"  -> c \in DateVals
+VARIABLE c
+vars == <<c>>
+Init == CASE Kind = "date"  -> c \in DateVals
              [] Kind = "time"  -> c \in TimeVals
              [] Kind = "dt"    -> c \in DtVals
              [] Kind = "range" -> c \in Ranges
-Next == ~done /\ done' = TRUE /\ UNCHANGED c
+Next == UNCHANGED c
 Spec == Init /\ [][Next]_vars
 
 (* probes: instants at the boundaries of every component v leaves open (and just outside the  *)
@@ -109,12 +108,12 @@ ValueOk(v) == /\ Valid(v)
               /\ \A p \in Probes(v) : Consistent(p, v) => (InstLe(Earliest(v), p) /\ InstLe(p, Latest(v)))
               /\ \E p \in Probes(v) : Consistent(p, v)
 
-SpecOk == done \/ IF Kind = "range"
+SpecOk == IF Kind = "range"
                   THEN /\ c.hasA => ValueOk(c.a)
                        /\ c.hasB => ValueOk(c.b)
                   ELSE ValueOk(c)
 
-Emit == done =>
+Emit ==
     IF Kind = "range"
     THEN PrintT(<<"CASE", ToJson([kind |-> "range", vkind |-> (IF c.hasA THEN c.a.kind ELSE c.b.kind),
                                   hasA |-> c.hasA, a |-> c.a, hasB |-> c.hasB, b |-> c.b,
